@@ -235,6 +235,11 @@ def main(argv=None):
             elif ob["status"] == "unknown":
                 undecided.append((rj["name"], f"solver gave no answer for obligation {name!r}"))
             else:
+                # a refuted obligation is not part of the proved count: it is either a recorded finding or a violation
+                if rj["bounded"]:
+                    bounded_total -= 1
+                else:
+                    total -= 1
                 kf = _match_known(known, prop, rj["name"], name)
                 if kf is not None:
                     known_hits.append((full, kf))
@@ -293,6 +298,7 @@ def main(argv=None):
             "bounded_stand_ins": {"obligations": bounded_total, "discharged": bounded_discharged,
                                   "sets": [{"name": rj["name"], "bound": rj["bounded"]} for rj in results if rj["bounded"]]},
             "known_findings_hit": [full for full, _ in known_hits],
+            "refuted_obligations_not_counted_above": len(known_hits) + len(violations),
             "interpreter_conformance": {"obligation_sets_with_native_reading": conf["osets"], "random_inputs": conf["samples"],
                                         "obligation_values_compared_cpython_vs_pyvc": conf["compared"],
                                         "disagreements": len(conf["disagreements"])},
